@@ -63,7 +63,6 @@ func (h *ValueReader) HandleArrayValue(data []byte) (p int, err error) {
 		if h2.depth > valueReaderMaxDepth {
 			return p, errMaxDepth
 		}
-		h2.newMapSize = h.maxMapSize
 		val, pp, err = h2.ReadObject(data)
 		mpLen := len(val.(map[string]interface{}))
 		if mpLen > h.maxMapSize {
@@ -114,7 +113,6 @@ func (h *ValueReader) HandleObjectValue(fieldname, data []byte) (p int, err erro
 		if h2.depth > valueReaderMaxDepth {
 			return p, errMaxDepth
 		}
-		h2.newMapSize = h.maxMapSize
 		val, pp, err = h2.ReadObject(data)
 		mpLen := len(val.(map[string]interface{}))
 		if mpLen > h.maxMapSize {
